@@ -133,8 +133,31 @@ def run(ids):
             sh("git -C %s checkout -- ." % REPO)
 
 
+def summary():
+    rows = []
+    for sid in sorted(os.listdir(SEEDED)):
+        mp = os.path.join(SEEDED, sid, "meta.json")
+        if not os.path.exists(mp):
+            continue
+        m = json.load(open(mp))
+        d = m.get("detection", {})
+        first = (m.get("needs_to_manifest", "").strip().split("\n") or [""])[0][:110]
+        rows.append("| %s | %s | %s | %s | %s | %s |" % (
+            sid, m["breaks_property"], "yes" if d.get("alarm_for_target_property") else ("undecided" if d.get("undecided") else "NO"),
+            ",".join(d.get("properties_alarmed", [])), "; ".join(d.get("failed_obligations", [])[:3]), d.get("contracts_commit", "")))
+    hit = sum(1 for r in rows if "| yes |" in r)
+    with open(os.path.join(SEEDED, "SUMMARY.md"), "w") as fh:
+        fh.write("# Seeded changes: %d confirmed, %d raise an alarm for their target property\n\n" % (len(rows), hit))
+        fh.write("| id | target | alarm for target | properties alarmed | first failed obligations | contracts commit |\n|---|---|---|---|---|---|\n")
+        fh.write("\n".join(rows) + "\n")
+    print("summary: %d/%d" % (hit, len(rows)))
+
+
 if __name__ == "__main__":
     if sys.argv[1] == "confirm":
         confirm(sys.argv[2:])
+    elif sys.argv[1] == "summary":
+        summary()
     else:
         run(sys.argv[2:])
+        summary()
